@@ -30,9 +30,10 @@ ASSUME = [
     "reps int32_t/int64_t/float/double; same-width integer types (long / long long) are identified",
     "periods are positive std::ratio with prime factors < 2^24 and terms small enough that chrono's own "
     "compile-time ratio arithmetic does not overflow intmax_t (otherwise chrono itself is ill-formed)",
-    "floating clauses of C17_mixed_ops_agree are proved for every rounding function that is idempotent and under "
-    "which binary32 values are binary64 values (hypothesis RoundingOK, named in the theorem); that hardware "
-    "rounding is such a function is checked by this correspondence, not proved",
+    "floating clauses: C17_mixed_ops_agree holds for every rounding function satisfying RoundingOK, and RoundingOK is "
+    "proved for the model's rne (IEEE round-to-nearest-even with gradual underflow, rne_roundingOK); that the hardware "
+    "and the compilers' constant evaluation round like rne is checked by this correspondence (bit-exact comparison of "
+    "float results), not proved",
     "non-finite float counts (inf, NaN) are covered by the round-trip oracle only (bit patterns), not by the model",
     "pairs whose mixed operation Au rejects at compile time (documented implicit-conversion policy: integral common "
     "rep and a scale factor k with 2147*k > max) have no Au answer to compare; the set is proved to be exactly that "
